@@ -150,6 +150,9 @@ def main() -> int:
                             if parts[0] in ("missing", "extra") and len(parts) > 1 and parts[1] in ("query", "header", "cookie"):
                                 nonstr_ = set(a2["x"].get("nonstr") or [])
                                 mech_ = ":non_string_value(C03)" if parts[0] == "missing" and (parts[1] in nonstr_ or any(n_.startswith(parts[1] + ":") for n_ in nonstr_)) else ""
+                                from ._ops import endpoint_local_capture
+                                if endpoint_local_capture(man):
+                                    mech_ = ":derived_local_captures_parameter"  # document-level trigger (C18's listed mechanism): an array parameter x next to x_item / x_item_data / json_x
                                 vd.violation(f"param_state:{'present->absent' if parts[0] == 'missing' else 'absent->present'}:{parts[1]}{mech_}", f"{a2['module']}.{variant}: {det}", {"doc": doc, "module": a2["module"], "args": a2.get("args"), "x": a2["x"]})
             elif a["a"] == "endpoint_info":
                 xx = a["x"]
